@@ -237,6 +237,19 @@ func (e *Engine) addrOf(p *Val, elem types.Type) (*Addr, bool) {
 	return &Addr{Kind: "cell", Key: e.keyCell(e.reg.sortOf(elem)), Base: p.T}, true
 }
 
+// fieldRef: the address of the nested struct in field i of the object at ref.  A sub-object belongs to the same
+// generation as its parent: inside an allocation of this path (negative reference) it is no pre-existing object, inside a
+// pre-existing object (positive) it is one.
+func (e *Engine) fieldRef(st *State, ref string, i int) string {
+	t := fmt.Sprintf("(fieldref %s %d)", ref, i)
+	if st != nil && !strings.Contains(t, "q_") {
+		if f := "(and (=> (< " + ref + " 0) (< " + t + " 0)) (=> (> " + ref + " 0) (> " + t + " 0)))"; !st.asserted[f] {
+			st.assume(f)
+		}
+	}
+	return t
+}
+
 func (e *Engine) loadStruct(st *State, m map[string]string, ref string, t types.Type) string {
 	ss := e.reg.structSort(t)
 	info := e.reg.structs[ss]
@@ -246,7 +259,7 @@ func (e *Engine) loadStruct(st *State, m map[string]string, ref string, t types.
 	var fs []string
 	for i := range info.Fields {
 		if _, isStruct := info.FTypes[i].Underlying().(*types.Struct); isStruct {
-			fs = append(fs, e.loadStruct(st, m, fmt.Sprintf("(fieldref %s %d)", ref, i), info.FTypes[i]))
+			fs = append(fs, e.loadStruct(st, m, e.fieldRef(st, ref, i), info.FTypes[i]))
 			continue
 		}
 		fs = append(fs, sel(e.heapGet(st, m, e.keyField(ss, i)), ref))
@@ -260,7 +273,7 @@ func (e *Engine) storeStruct(st *State, ref string, t types.Type, val string) {
 	for i := range info.Fields {
 		fv := fmt.Sprintf("(%s_f%d %s)", ss, i, val)
 		if _, isStruct := info.FTypes[i].Underlying().(*types.Struct); isStruct {
-			e.storeStruct(st, fmt.Sprintf("(fieldref %s %d)", ref, i), info.FTypes[i], fv)
+			e.storeStruct(st, e.fieldRef(st, ref, i), info.FTypes[i], fv)
 			continue
 		}
 		k := e.keyField(ss, i)
@@ -888,7 +901,7 @@ func (e *Engine) simpleInstr(fr *Frame, st *State, instr ssa.Instruction) (*Val,
 			}
 			return &Val{T: "1", S: sInt, Typ: in.Type(), Addr: &Addr{Kind: "elemfield", Key: x.Addr.Key, Base: x.Addr.Base, Idx: x.Addr.Idx, Struct: ss, Field: in.Field}}, nil
 		}
-		r := &Val{T: fmt.Sprintf("(fieldref %s %d)", x.T, in.Field), S: sInt, Typ: in.Type()}
+		r := &Val{T: e.fieldRef(st, x.T, in.Field), S: sInt, Typ: in.Type()}
 		st.assume(not(eq(r.T, "0"))) // the address of a field of a non-nil object is not nil
 		switch ft.Underlying().(type) {
 		case *types.Struct:
